@@ -164,6 +164,111 @@ fn compact_story_paths(root: &mut Value) {
     compact_container_paths(root, &RuntimePath::absolute(""));
 }
 
+/// Fields of a runtime object that hold a path into the content tree.
+const PATH_FIELDS: [&str; 6] = ["->", "f()", "->t->", "*", "CNT?", "^->"];
+
+fn collect_path_fields(value: &Value, origin: &RuntimePath, out: &mut Vec<(RuntimePath, String)>) {
+    let Value::Object(map) = value else {
+        return;
+    };
+    let variable_target = map.get("var").and_then(Value::as_bool) == Some(true);
+
+    for field in PATH_FIELDS {
+        if variable_target && matches!(field, "->" | "f()" | "->t->") {
+            continue;
+        }
+        if let Some(target) = map.get(field).and_then(Value::as_str) {
+            out.push((origin.clone(), target.to_owned()));
+        }
+    }
+}
+
+fn collect_container_paths(
+    value: &Value,
+    container_path: &RuntimePath,
+    out: &mut Vec<(RuntimePath, String)>,
+) {
+    let Value::Array(values) = value else {
+        return;
+    };
+    let Some((terminator, content)) = values.split_last() else {
+        return;
+    };
+
+    for (index, child) in content.iter().enumerate() {
+        let child_path = container_path.appended(
+            embedded_container_name(child)
+                .map(str::to_owned)
+                .unwrap_or_else(|| index.to_string()),
+        );
+        if child.is_array() {
+            collect_container_paths(child, &child_path, out);
+        } else {
+            collect_path_fields(child, &child_path, out);
+        }
+    }
+
+    let Value::Object(named) = terminator else {
+        return;
+    };
+    for (name, child) in named {
+        if name == "#f" || name == "#n" || !child.is_array() {
+            continue;
+        }
+        collect_container_paths(child, &container_path.appended(name.clone()), out);
+    }
+}
+
+fn path_exists(root: &Value, path: &RuntimePath) -> bool {
+    let mut current = root;
+    for component in &path.components {
+        let Value::Array(values) = current else {
+            return false;
+        };
+        let Some((terminator, content)) = values.split_last() else {
+            return false;
+        };
+        let next = if let Ok(index) = component.parse::<usize>() {
+            content.get(index)
+        } else {
+            content
+                .iter()
+                .rev()
+                .find(|child| embedded_container_name(child) == Some(component.as_str()))
+                .or_else(|| {
+                    terminator
+                        .as_object()
+                        .and_then(|named| named.get(component.as_str()))
+                        .filter(|child| child.is_array())
+                })
+        };
+        match next {
+            Some(child) => current = child,
+            None => return false,
+        }
+    }
+    true
+}
+
+/// Every divert, function call, tunnel, choice target, read count and divert
+/// target value of the emitted story must name existing content: an unknown
+/// name is a compile error, not a story that breaks when it is played.
+fn check_story_paths(root: &Value) -> Result<(), CompilerError> {
+    let mut references = Vec::new();
+    collect_container_paths(root, &RuntimePath::absolute(""), &mut references);
+
+    for (origin, target) in references {
+        let parsed = RuntimePath::parse(&target, target.starts_with('.'));
+        if !path_exists(root, &parsed.resolve_from(&origin)) {
+            return Err(CompilerError::invalid_source(format!(
+                "Divert target not found: '{target}'"
+            )));
+        }
+    }
+
+    Ok(())
+}
+
 #[cfg(test)]
 mod tests {
     use super::*;
